@@ -320,6 +320,7 @@ async fn run_script(
 fn mk_handler(
     scripts: Vec<Vec<u128>>,
     ev2: Arc<Mutex<Args>>,
+    polls: Arc<std::sync::atomic::AtomicUsize>,
 ) -> impl for<'a, 'b> FnMut(&'a mut Request<'b, Reader, Writer>) -> BoxFuture<'a, io::Result<ExitStatus>> {
     let mut served = 0usize;
     move |req| {
@@ -328,7 +329,7 @@ fn mk_handler(
         let ev3 = ev2.clone();
         {
             let mut e = ev3.lock().expect("ev");
-            e.push(vec![100]);
+            e.push(vec![100, polls.load(Ordering::SeqCst) as u128]);
             // Request has no accessor for the id; role/flags/env are public
             let mut env: Vec<(Vec<u8>, Vec<u8>)> =
                 req.env_iter().map(|(k, v)| (k.as_ref().as_bytes().to_vec(), v.to_vec())).collect();
@@ -373,7 +374,8 @@ fn conn_run(a: &Args) -> Args {
                 Poll::Pending => panic!("no token"),
             }
         };
-        let handler = mk_handler(scripts, ev.clone());
+        let pollc = Arc::new(std::sync::atomic::AtomicUsize::new(0));
+        let handler = mk_handler(scripts, ev.clone(), pollc.clone());
         let mut task: Option<Pin<Box<dyn Future<Output = ()>>>> =
             Some(Box::pin(token.run(Reader(world.clone()), Writer(world.clone()), handler)));
         let mut shutdown_fut = None;
@@ -384,6 +386,7 @@ fn conn_run(a: &Args) -> Args {
                 shutdown_fut = Some(Box::pin(runner.take().expect("runner").shutdown()));
             }
             polls += 1;
+            pollc.store(polls as usize, Ordering::SeqCst);
             flag.0.store(false, Ordering::SeqCst);
             world.lock().expect("world").blocked = false;
             let res = task.as_mut().expect("task").as_mut().poll(&mut cx);
@@ -428,7 +431,7 @@ fn conn_run(a: &Args) -> Args {
         head = vec![PANIC];
     }
     let w = world.lock().unwrap_or_else(|e| e.into_inner());
-    let mut res = vec![head, vec![w.pos as u128], nums(&w.wlog)];
+    let mut res = vec![head, vec![w.pos as u128, w.ri.min(w.rscript.len()) as u128, w.wi.min(w.wscript.len()) as u128], nums(&w.wlog)];
     res.extend(ev.lock().unwrap_or_else(|e| e.into_inner()).iter().cloned());
     res.push(vec![200]);
     res.push(shutdown_obs);
